@@ -67,6 +67,7 @@ class ShardStats(object):
 
 
 def evaluate_guarded(sc, case):
+    core.CASE_IN_THREAD = bool(core.digest(case)[0] & 1)
     with watchdog(sc.timeout):
         return sc.evaluate(case)
 
